@@ -143,7 +143,7 @@ def bounds_respected(t, top, depth=0):
             if p.bound is None or (isinstance(a, tp.WildCardType) and a.bound is None):
                 continue
             b = tp.substitute_type(p.bound, sigma)
-            if not (b == top or refsub.sub(py_core(a), b)):
+            if not (b == top or refsub.sub(py_core(a), b, 2)):
                 return False
     return True
 
@@ -169,7 +169,7 @@ def py_within(a, b, top):
         if b.bound is None:
             return True
         b = b.bound
-    return b == top or refsub.sub(py_core(a), b)
+    return b == top or refsub.sub(py_core(a), b, 2)     # depth 2: without the exponential widening search
 
 
 def pre_consistent(params, pre, top):
@@ -220,4 +220,4 @@ def py_judge(params, sigma, targs, top, pre=None):
 
 def refsub_sub(s, t):
     import refsub
-    return refsub.sub(s, t)
+    return refsub.sub(s, t, 2)     # depth 2: without the exponential widening search
